@@ -280,7 +280,7 @@ def gen_cases(ctx):
                 {"jax_res": 10 ** 6, "jax_jac": 10 ** 6, "mixedjax": 24, "jax_backprop": 24, "mixed_jac": 10 ** 6})
     n_res, k_res = (32, 4) if q else (220, 7)
     n_jac, k_jac = (13, 4) if q else (90, 7)
-    n_tj = 16 if q else 80
+    n_tj = 1 if q else 5
     n_batch = 6 if q else 40
     cases = []
     reqs = list(CORPUS_REQS)
@@ -321,15 +321,21 @@ def gen_cases(ctx):
         for cfg in pick_cfgs(rng, r, k_jac, jac=True, must_backprop=bparam):
             cases.append(mk("jac", cfg, req=r, params=ps, bparam=bparam))
     # Jacobians at tape level: JacobianProductCalculator classes and the in-repo structure function
-    for _ in range(n_tj):
-        r = gen_req(rng, kinds=jk, batch=False)
-        P = rng.choice([1, 2, 3])
-        part = r["shots"] is not None and len(expand_shots(r["shots"])) > 1
-        for d in rng.sample(DEVS, 3):
+    # grid: every (number of parameters, number of measurements, shots class) combination occurs
+    grid = [(P, nm, sc) for P in (1, 2, 3) for nm in (1, 2, 3) for sc in ("none", "int", "vec")] * n_tj
+    for P, nm, sc in grid:
+        nw = rng.choice([2, 3])
+        shots = None if sc == "none" else (rng.choice([1, 3, 10]) if sc == "int" else rng.choice([[4, 4, 2], [[3, 2]], [2, 5], [1, [6, 2]]]))
+        mps = []
+        for _ in range(nm):
+            k = rng.choice(jk)
+            mps.append({"k": k, "o": rng.randint(0, 3), "w": rng.randint(0, nw)} if k == "probs" else {"k": k, "o": rng.randint(0, 3)})
+        r = {"shots": shots, "nw": nw, "B": None, "mps": mps}
+        for d in rng.sample(DEVS, 2):
             for m in ("parameter-shift", "finite-diff", "adjoint"):
                 if valid_cfg(d, "jax", m, r, jac=True):
                     cases.append(mk("tapejac", (d, "numpy", m), req=r, P=P))
-        if not part:    # _jac_shape_dtype_struct is only reached for analytic / single-copy tapes
+        if sc != "vec":    # _jac_shape_dtype_struct is only reached for analytic / single-copy tapes
             cases.append(mk("jacstruct", (rng.choice(DEVS), "numpy", None), req=r, P=P))
     return cases
 
